@@ -220,7 +220,8 @@ inline Args parse_args(int argc, char** argv) {
 struct Slot {
   volatile long long progress;  // bumped by the child on every case
   volatile long long case_id;   // id of the case being executed
-  char what[3800];              // human-readable descriptor of current case
+  long long raw[8];             // cheap binary descriptor of the innermost case (harness-defined)
+  char what[3700];              // human-readable descriptor of current case
 };
 inline Slot*& cur_slot() { static Slot* s = nullptr; return s; }
 inline void begin_case(long long id, const std::string& what) {
@@ -232,6 +233,7 @@ inline void begin_case(long long id, const std::string& what) {
   memcpy(s->what, what.data(), n);
   s->what[n] = 0;
 }
+inline void set_raw(const long long* v, int n) { if (Slot* s = cur_slot()) for (int i = 0; i < n && i < 8; ++i) s->raw[i] = v[i]; }
 inline void tick() { if (Slot* s = cur_slot()) s->progress = s->progress + 1; }
 
 struct ShardCtl {
@@ -379,6 +381,8 @@ inline void run_shards(int nshards, const PoolOpts& opts, const std::string& wor
       // abnormal end
       long long cid = L.slot->case_id;
       std::string what = L.slot->what;
+      what += " | raw:";
+      for (int q = 0; q < 8; ++q) what += " " + std::to_string(L.slot->raw[q]);
       std::string log = slurp(err_path(L.shard));
       std::string sig = hung ? "hang@" + what.substr(0, what.find(' ')) : sanitizer_signature(log);
       std::vector<std::string> ra;
